@@ -145,7 +145,7 @@ TrEndBlock == IsEvent("EndBlock") /\ LET e == Trace[l]  m == EndBlockResult
   /\ burned' = burned \cup {tx.id : tx \in legit}
   /\ burnedSum' = [d \in Denoms |-> burnedSum[d] + SumCost({tx \in legit : TokDenom[tx.tok] = d})]
   /\ deposited' = [d \in Denoms |-> deposited[d] + Inflow(d)]
-  /\ lastBatch' = Max({lastBatch, m.lastBatch} \cup {b.nonce : b \in batches'})   \* batches built and executed within the block are never seen
+  /\ lastBatch' = Max({lastBatch} \cup (IF e.fired THEN {} ELSE {m.lastBatch}) \cup {b.nonce : b \in batches'})   \* batches built and executed within the block are never seen
   /\ UNCHANGED <<lastTx, tax, limit, accepted, refunded, punished, sent, supply0, win>>
   /\ Always(e)
   /\ Report("C01.EndBlockKeepsUserFunds", \A u \in Users, d \in Denoms : bal'[u][d] >= bal[u][d])
